@@ -244,7 +244,7 @@ template <class E> struct ListRun {
         else if (o == "splice_range") {
             const bool self = R.arg("self") != 0; std::vector<int>& src = self ? ma : mb; L& ls = self ? *a : *b;
             const size_t first = R.uarg("j") % (src.size() + 1), cnt = std::min<size_t>(R.uarg("n") % 6, src.size() - first); size_t pos = R.uarg("i") % (n + 1);
-            if (self && pos > first && pos < first + cnt) pos = first + cnt;      // pos must not lie inside the moved range
+            if (self && pos >= first && pos < first + cnt) pos = first + cnt;     // pos must not lie inside [first, last)
             R.kind = self ? "splice_range-self" : "splice_range";
             std::vector<int> pb = mb;
             if (self) { std::list<int> m(ma.begin(), ma.end()); std::list<int>::iterator p = m.begin(), f = m.begin(), l; std::advance(p, pos); std::advance(f, first); l = f; std::advance(l, cnt); m.splice(p, m, f, l); post.assign(m.begin(), m.end()); }
@@ -312,7 +312,8 @@ template <class E> struct DequeRun {
         else if (o == "clear") { post.clear(); R.call([&] { a->clear(); }); after(post, TRUNC); }
         else if (o == "swap") {
             R.kind = bsA == bsB ? "swap" : "swap-different-block-size";
-            std::vector<int> pb = ma; post = mb; R.call([&] { a->swap(*b); }); after(post, ATOMIC, &pb, ATOMIC);
+            std::vector<int> pb = ma; post = mb; const int an0 = R.anomalies; R.call([&] { a->swap(*b); }); after(post, ATOMIC, &pb, ATOMIC);
+            if (R.anomalies != an0 && bsA != bsB) R.stop = R.poisoned = true;      // blocks of one size under an index computed with the other: nothing after this is meaningful
         }
         else if (o == "assign_from_b") { post = mb; R.call([&] { *a = *b; }); after(post, REFILL); }
         else if (o == "assign_to_b") { std::vector<int> pb = ma; R.call([&] { *b = *a; }); after(post, ATOMIC, &pb, REFILL); }
